@@ -129,7 +129,7 @@ def case_block(ds, jnp, case, res, fail):
          (len(bad), len(res["ref"]), bad[0]))
 
 
-def gen_psd(rng, d, ps, cr, spread, scale=None):
+def gen_psd(rng, d, ps, cr, spread, scale=None, null=0):
   """Float64 PSD matrix of size d whose leading ps x ps block has a prescribed spectrum with a
   gap at the cut; rows/cols >= ps carry non-zero garbage (the code must mask it)."""
   m = ps
@@ -144,6 +144,8 @@ def gen_psd(rng, d, ps, cr, spread, scale=None):
   lam = np.array(lam)  # ascending, consecutive ratio >= 1.25 everywhere (so also at the cut)
   if scale is not None and m:
     lam = lam * (scale / lam[-1])       # top eigenvalue = scale
+  if null:
+    lam[:min(null, m - 1)] = 0.0        # exactly rank-deficient statistics (Gram of few gradients)
   B = (Qm * lam) @ Qm.T
   B = (B + B.T) / 2
   A = np.zeros((d, d))
@@ -163,7 +165,7 @@ def case_root(ds, jax, jnp, case, res, fail):
   rng = common.SplitMix64(case["seed"])
   r = abs(cr)
   real = d if ps is None else ps
-  A = gen_psd(rng, d, real, cr, case["spread"], case.get("scale"))
+  A = gen_psd(rng, d, real, cr, case["spread"], case.get("scale"), case.get("null", 0))
   cap = dict(eigh=[], power=[], pi=[])
   o_eigh, o_power, o_pi = jnp.linalg.eigh, jnp.power, ds.power_iteration
 
@@ -214,6 +216,18 @@ def case_root(ds, jax, jnp, case, res, fail):
   V, inv, c = np.asarray(V), np.asarray(inv), float(c)
   if bool(hz):
     fail("has_zeros set by _low_rank_root")
+  if real < d and float(np.abs(V[real:, :]).max()) > 0.0:
+    fail("retained directions are not zero on the padding rows (max |V| there = %.3g)"
+         % float(np.abs(V[real:, :]).max()))
+  if case.get("null"):
+    # eigenvalues tie inside the null space, so the retained eigenvectors are not unique: structural
+    # clauses only (zero on padding, orthonormal retained directions, finite values)
+    if not np.all(np.isfinite(val)):
+      fail("non-finite packed root")
+    g = V.T @ V
+    if float(np.abs(g - np.eye(g.shape[0])).max()) > 1e-8:
+      fail("retained directions are not orthonormal (max dev %.3g)" % float(np.abs(g - np.eye(g.shape[0])).max()))
+    return
   dense = c * (np.eye(d) - V @ V.T) + (V * inv) @ V.T
   Am = A[:real, :real] + ridge * np.eye(real)
   w, Q = np.linalg.eigh(Am)
